@@ -23,6 +23,8 @@ import (
 
 type vfC32Case struct {
 	Transport int // 0 SSE (POST), 1 SSE (GET cf_connect), 2 HTTP stream JSON, 3 HTTP stream Protobuf
+	Others    []int // transports of further connections subscribed to the same channel (the hub shares one encoded message between them)
+	Slow      int   // index of the connection whose ResponseWriter holds every Write until all publications were issued (0 = the first), -1 none
 	Payloads  [][]byte
 	Burst     []bool // payload i is published without settling after payload i-1 (batches in WriteMany)
 	WriteMax  int    // MaxMessagesInFrame
@@ -37,7 +39,7 @@ func (c vfC32Case) String() string {
 		}
 		ps = append(ps, fmt.Sprintf("%s%q", b, vfTrunc(string(p), 80)))
 	}
-	return fmt.Sprintf("transport=%d maxInFrame=%d payloads=[%s]", c.Transport, c.WriteMax, strings.Join(ps, " "))
+	return fmt.Sprintf("transport=%d others=%v slow=%d maxInFrame=%d payloads=[%s]", c.Transport, c.Others, c.Slow, c.WriteMax, strings.Join(ps, " "))
 }
 
 var vfC32WS = []string{"", "", " ", "\t", "\r", "\n", "\r\n", " \r ", "\n\n"}
@@ -94,6 +96,22 @@ func vfC32Gen(rt *rapid.T) vfC32Case {
 		c.Payloads = append(c.Payloads, p)
 		c.Burst = append(c.Burst, i > 0 && rapid.Bool().Draw(rt, "burst"))
 	}
+	c.Slow = -1
+	allJSON := true
+	for _, p := range c.Payloads {
+		if !json.Valid(p) {
+			allJSON = false // a non-JSON payload disconnects JSON connections (inappropriate protocol): Protobuf only
+		}
+	}
+	if allJSON {
+		no := rapid.SampledFrom([]int{0, 0, 1, 1, 2}).Draw(rt, "others")
+		for i := 0; i < no; i++ {
+			c.Others = append(c.Others, rapid.SampledFrom([]int{0, 0, 1, 2}).Draw(rt, "otherTransport"))
+		}
+		if no > 0 {
+			c.Slow = rapid.IntRange(-1, no).Draw(rt, "slow")
+		}
+	}
 	return c
 }
 
@@ -105,6 +123,21 @@ type vfC32RW struct {
 	status int
 	body   bytes.Buffer
 	flush  int
+	gate   chan struct{}
+}
+
+func (w *vfC32RW) Hold() {
+	w.mu.Lock()
+	w.gate = make(chan struct{})
+	w.mu.Unlock()
+}
+func (w *vfC32RW) Release() {
+	w.mu.Lock()
+	if w.gate != nil {
+		close(w.gate)
+		w.gate = nil
+	}
+	w.mu.Unlock()
 }
 
 func (w *vfC32RW) Header() http.Header { return w.hdr }
@@ -116,6 +149,15 @@ func (w *vfC32RW) WriteHeader(s int) {
 	w.mu.Unlock()
 }
 func (w *vfC32RW) Write(b []byte) (int, error) {
+	// A held writer parks on a channel (durably blocked in the bubble, no lock held) until the test releases it: the
+	// other connections' writers run meanwhile. (A virtual-time Sleep here would freeze the bubble's clock as soon as
+	// anything waits on the transport mutex.)
+	w.mu.Lock()
+	g := w.gate
+	w.mu.Unlock()
+	if g != nil {
+		<-g
+	}
 	w.mu.Lock()
 	defer w.mu.Unlock()
 	if w.status == 0 {
@@ -216,37 +258,58 @@ func vfC32Run(t *testing.T, cs vfC32Case, out *vfC32Out, isKnown func(string) bo
 			return "infra: " + err.Error()
 		}
 		defer w.Close()
-		rw := &vfC32RW{hdr: http.Header{}}
-		ctx, cancel := context.WithCancel(context.Background())
-		var req *http.Request
-		noPing := PingPongConfig{PingInterval: -1, PongTimeout: -1}
-		var handler http.Handler
-		isProto := cs.Transport == 3
-		switch cs.Transport {
-		case 0:
-			req, _ = http.NewRequestWithContext(ctx, http.MethodPost, "http://x/sse", strings.NewReader(`{"id":1,"connect":{}}`))
-			handler = NewSSEHandler(w.node, SSEConfig{PingPongConfig: noPing})
-		case 1:
-			req, _ = http.NewRequestWithContext(ctx, http.MethodGet, "http://x/sse?cf_connect=%7B%22id%22%3A1%2C%22connect%22%3A%7B%7D%7D", nil)
-			handler = NewSSEHandler(w.node, SSEConfig{PingPongConfig: noPing})
-		case 2:
-			req, _ = http.NewRequestWithContext(ctx, http.MethodPost, "http://x/stream", strings.NewReader(`{"id":1,"connect":{}}`))
-			handler = NewHTTPStreamHandler(w.node, HTTPStreamConfig{PingPongConfig: noPing})
-		case 3:
-			cmd := &protocol.Command{Id: 1, Connect: &protocol.ConnectRequest{}}
-			raw, _ := cmd.MarshalVT()
-			var buf bytes.Buffer
-			var lb [binary.MaxVarintLen64]byte
-			n := binary.PutUvarint(lb[:], uint64(len(raw)))
-			buf.Write(lb[:n])
-			buf.Write(raw)
-			req, _ = http.NewRequestWithContext(ctx, http.MethodPost, "http://x/stream", &buf)
-			req.Header.Set("Content-Type", "application/octet-stream")
-			handler = NewHTTPStreamHandler(w.node, HTTPStreamConfig{PingPongConfig: noPing})
+		type c32conn struct {
+			tr     int
+			rw     *vfC32RW
+			cancel context.CancelFunc
+			done   chan struct{}
 		}
-		done := make(chan struct{})
-		go func() { defer close(done); handler.ServeHTTP(rw, req) }()
-		vfSettle()
+		noPing := PingPongConfig{PingInterval: -1, PongTimeout: -1}
+		start := func(tr int, slow bool) *c32conn {
+			rw := &vfC32RW{hdr: http.Header{}}
+			ctx, cancel := context.WithCancel(context.Background())
+			var req *http.Request
+			var handler http.Handler
+			switch tr {
+			case 0:
+				req, _ = http.NewRequestWithContext(ctx, http.MethodPost, "http://x/sse", strings.NewReader(`{"id":1,"connect":{}}`))
+				handler = NewSSEHandler(w.node, SSEConfig{PingPongConfig: noPing})
+			case 1:
+				req, _ = http.NewRequestWithContext(ctx, http.MethodGet, "http://x/sse?cf_connect=%7B%22id%22%3A1%2C%22connect%22%3A%7B%7D%7D", nil)
+				handler = NewSSEHandler(w.node, SSEConfig{PingPongConfig: noPing})
+			case 2:
+				req, _ = http.NewRequestWithContext(ctx, http.MethodPost, "http://x/stream", strings.NewReader(`{"id":1,"connect":{}}`))
+				handler = NewHTTPStreamHandler(w.node, HTTPStreamConfig{PingPongConfig: noPing})
+			case 3:
+				cmd := &protocol.Command{Id: 1, Connect: &protocol.ConnectRequest{}}
+				raw, _ := cmd.MarshalVT()
+				var buf bytes.Buffer
+				var lb [binary.MaxVarintLen64]byte
+				n := binary.PutUvarint(lb[:], uint64(len(raw)))
+				buf.Write(lb[:n])
+				buf.Write(raw)
+				req, _ = http.NewRequestWithContext(ctx, http.MethodPost, "http://x/stream", &buf)
+				req.Header.Set("Content-Type", "application/octet-stream")
+				handler = NewHTTPStreamHandler(w.node, HTTPStreamConfig{PingPongConfig: noPing})
+			}
+			cn := &c32conn{tr: tr, rw: rw, cancel: cancel, done: make(chan struct{})}
+			go func() { defer close(cn.done); handler.ServeHTTP(rw, req) }()
+			vfSettle()
+			if slow {
+				rw.Hold() // connected and subscribed; from now on its writes wait for the release below
+			}
+			return cn
+		}
+		conns := []*c32conn{start(cs.Transport, cs.Slow == 0)}
+		for i, tr := range cs.Others {
+			conns = append(conns, start(tr, cs.Slow == i+1))
+		}
+		stopAll := func() {
+			for _, cn := range conns {
+				cn.cancel()
+				<-cn.done
+			}
+		}
 		batches := 0
 		for i, p := range cs.Payloads {
 			if !cs.Burst[i] {
@@ -255,17 +318,25 @@ func vfC32Run(t *testing.T, cs vfC32Case, out *vfC32Out, isKnown func(string) bo
 				batches++
 			}
 			if _, err := w.node.Publish(ch, p); err != nil {
-				cancel()
-				<-done
+				for _, cn := range conns {
+					cn.rw.Release()
+				}
+				stopAll()
 				return fmt.Sprintf("publish %d failed: %v", i, err)
 			}
 		}
 		vfSettle()
-		time.Sleep(100 * time.Millisecond)
+		for _, cn := range conns {
+			cn.rw.Release()
+		}
 		vfSettle()
-		body := rw.Body()
-		cancel()
-		<-done
+		time.Sleep(500 * time.Millisecond)
+		vfSettle()
+		var bodies [][]byte
+		for _, cn := range conns {
+			bodies = append(bodies, cn.rw.Body())
+		}
+		stopAll()
 
 		hasCRLF := false
 		for _, p := range cs.Payloads {
@@ -277,6 +348,12 @@ func vfC32Run(t *testing.T, cs vfC32Case, out *vfC32Out, isKnown func(string) bo
 			out.nontrivial = true
 		}
 		out.labels = append(out.labels, []string{"sse_post", "sse_get", "http_stream_json", "http_stream_protobuf"}[cs.Transport])
+		if len(cs.Others) > 0 {
+			out.labels = append(out.labels, "several_connections_share_the_broadcast")
+			if cs.Slow >= 0 {
+				out.labels = append(out.labels, "one_connection_writes_slowly")
+			}
+		}
 		if hasCRLF {
 			out.labels = append(out.labels, "payload_with_raw_cr_or_lf")
 		}
@@ -284,9 +361,12 @@ func vfC32Run(t *testing.T, cs vfC32Case, out *vfC32Out, isKnown func(string) bo
 			out.labels = append(out.labels, "burst_publish")
 		}
 
+		for ci, cn := range conns {
+			tr, body := cn.tr, bodies[ci]
+			m := func() string {
 		// ---- split the body into records with the standards-conforming client parser --------------------------------
 		var records [][]byte
-		switch cs.Transport {
+		switch tr {
 		case 0, 1:
 			for _, e := range vfC32ParseSSE(body) {
 				records = append(records, []byte(e))
@@ -302,7 +382,7 @@ func vfC32Run(t *testing.T, cs vfC32Case, out *vfC32Out, isKnown func(string) bo
 			for len(rest) > 0 {
 				l, n := binary.Uvarint(rest)
 				if n <= 0 || int(l) > len(rest)-n {
-					return fmt.Sprintf("protobuf stream: bad length prefix at %d bytes before the end; body %q", len(rest), vfTrunc(string(body), 300))
+					return fmt.Sprintf("connection %d: protobuf stream: bad length prefix at %d bytes before the end; body %q", ci, len(rest), vfTrunc(string(body), 300))
 				}
 				records = append(records, rest[n:n+int(l)])
 				rest = rest[n+int(l):]
@@ -311,8 +391,8 @@ func vfC32Run(t *testing.T, cs vfC32Case, out *vfC32Out, isKnown func(string) bo
 		// ---- decode each record and pair with what the server sent ---------------------------------------------------
 		want := len(cs.Payloads) + 1 // connect reply + one push per publication
 		fail := func(msg string) string {
-			full := fmt.Sprintf("%s; body=%q", msg, vfTrunc(string(body), 600))
-			if (cs.Transport == 0 || cs.Transport == 1) && bytes.ContainsRune(bytes.Join(cs.Payloads, nil), '\r') {
+			full := fmt.Sprintf("connection %d (transport %d): %s; body=%q", ci, tr, msg, vfTrunc(string(body), 600))
+			if (tr == 0 || tr == 1) && bytes.ContainsRune(bytes.Join(cs.Payloads, nil), '\r') {
 				key := "C32:sse-raw-cr-in-json-payload-splits-event"
 				if isKnown(key) {
 					out.known = append(out.known, key)
@@ -329,7 +409,7 @@ func vfC32Run(t *testing.T, cs vfC32Case, out *vfC32Out, isKnown func(string) bo
 		for i, rec := range records {
 			var rep protocol.Reply
 			var derr error
-			if isProto {
+			if tr == 3 {
 				derr = rep.UnmarshalVT(rec)
 			} else {
 				derr = json.Unmarshal(rec, &rep)
@@ -347,12 +427,18 @@ func vfC32Run(t *testing.T, cs vfC32Case, out *vfC32Out, isKnown func(string) bo
 				return fail(fmt.Sprintf("record %d is not a publication push: %s", i, vfRenderReply(&rep)))
 			}
 			pub := cs.Payloads[i-1]
-			if isProto {
+			if tr == 3 {
 				if !bytes.Equal(rep.Push.Pub.Data, pub) {
 					return fail(fmt.Sprintf("record %d carries payload %q, published %q", i, rep.Push.Pub.Data, pub))
 				}
 			} else if !vfC32JSONEqual(rep.Push.Pub.Data, pub) {
 				return fail(fmt.Sprintf("record %d carries payload %q, published %q (not equal as JSON values)", i, rep.Push.Pub.Data, pub))
+			}
+		}
+				return ""
+			}()
+			if m != "" {
+				return m
 			}
 		}
 		return ""
